@@ -1574,3 +1574,24 @@ Proof.
   split; [split; [vm_compute; reflexivity|constructor; [right; reflexivity|constructor]]|].
   split; vm_compute; reflexivity.
 Qed.
+
+(* ================================================================ query *)
+
+(* query(n) for an int: the key is str(n) and the value what get(n, None) gives *)
+Lemma query_int z c :
+  c_query [TInt z] c = match c_get (TInt z) DNone c with
+                       | Ok r => Ok [(z_to_dec z, r)]
+                       | Exc e => Exc e
+                       end.
+Proof.
+  unfold c_query. cbn [query_loop]. unfold query_key. cbn [tag_str].
+  assert (E : c_get (TStr (z_to_dec z)) DNone c = c_get (TInt z) DNone c) by reflexivity.
+  destruct (in_ftag (z_to_dec z)); rewrite E; destruct (c_get (TInt z) DNone c); reflexivity.
+Qed.
+
+(* a non-canonical spelling is a key of its own for set/get, but query() reads the canonical key *)
+Lemma query_noncanonical :
+  let c := C None [([32; 53], VStr [97])] in                               (* {" 5": "a"} *)
+  c_get (TStr [32; 53]) DNone c = Ok (RvStr [97]) /\ c_get (TInt 5) DNone c = Ok RvNone
+  /\ c_query [TStr [32; 53]] c = Ok [([53], RvNone)] /\ c_query [] c = Ok [([53], RvNone)].
+Proof. cbv zeta. repeat split; vm_compute; reflexivity. Qed.
